@@ -64,6 +64,10 @@ class ASTVisitor:
         """
         ctx_list = ctx.children
 
+        # The exchange dict carries ruleset signatures from a definition to the calls of the
+        # same script; it must not carry them from one parse to the next.
+        de_ruleset_elements.clear()
+
         statements_nodes = []
         statements = [
             statement
